@@ -364,6 +364,26 @@ def collect():
     T["guard_range"] = guard_range
     T["guard_constraint"] = guard_constraint
 
+    # comparator tables of the native / advisory converters, in dict order
+    def table(d):
+        out = []
+        for k, v in d.items():
+            if not isinstance(k, str) or not (v is None or (isinstance(v, str) and v in COP_NAME)):
+                raise TranslatorError(f"unexpected comparator table entry {k!r}: {v!r}")
+            out.append((k, v))
+        return out
+    T["native_tables"] = {c.__name__: table(c.vers_by_native_comparators) for c in rclasses if "vers_by_native_comparators" in vars(c) or hasattr(c, "vers_by_native_comparators")}
+    T["github_table"] = table(vr.vers_by_github_native_comparators)
+    T["snyk_table"] = table(vr.vers_by_snyk_native_comparators)
+    # split_req_bracket_notation tabulated by execution on the four brackets
+    br = {}
+    for ch, txt in (("(", "(1"), ("[", "[1"), (")", "1)"), ("]", "1]")):
+        c, v = vr.split_req_bracket_notation(txt)
+        if v != "1" or c not in COP_NAME:
+            raise TranslatorError(f"split_req_bracket_notation({txt!r}) gave {(c, v)!r}")
+        br[ch] = c
+    T["bracket_table"] = br
+
     # attrs fields of the three frozen base classes: which take part in == and in hash()
     fields = {}
     for c in (vs.Version, vc.VersionConstraint, vr.VersionRange):
@@ -511,6 +531,19 @@ def emit(T):
             [f"({coq_str(n)}, {coq_bool(e)}, {coq_bool(h)})" for n, e, h in rows]) + ".")
     for (cname, m), (kind, _owner) in T["container_origin"].items():
         w(f"Definition origin_{ident(cname)}_{m} : string := {coq_str(kind)}.")
+    w("")
+    w("(* ---- comparator tables of the native and advisory converters (dict order; None = unsupported) ---- *)")
+    def emit_table(name, rows):
+        w(f"Definition {name} : list (string * option cop) := " + coq_list(
+            [f"({coq_str(k)}, {'None' if v is None else 'Some ' + COP_NAME[v]})" for k, v in rows]) + ".")
+    emit_table("github_table", T["github_table"])
+    emit_table("snyk_table", T["snyk_table"])
+    for cname, rows in T["native_tables"].items():
+        emit_table("native_table_" + ident(cname), rows)
+    w("Definition native_tables : list (string * list (string * option cop)) := " + coq_list(
+        [f"({coq_str(c)}, native_table_{ident(c)})" for c in T["native_tables"]]) + ".")
+    w("Definition bracket_table : list (string * cop) := " + coq_list(
+        [f"({coq_str(k)}, {COP_NAME[v]})" for k, v in T["bracket_table"].items()]) + ".")
     w("")
     w("(* ---- scheme tables ---- *)")
     w("Definition legacy_base : list string := " + coq_list([coq_str(x) for x in T["legacy_base"]]) + ".")
